@@ -1,11 +1,12 @@
 """C10 — the generated client reconstructs every response the server can send."""
 from . import respfam
 
-THEOREMS = ["Goag.Resp.documented_arm_exact", "Goag.Resp.documented_reaches_arm", "Goag.Resp.undocumented_to_default", "Goag.Resp.undocumented_is_error"]
+THEOREMS = ["Goag.Resp.documented_arm_exact", "Goag.Resp.documented_reaches_arm", "Goag.Resp.undocumented_to_default", "Goag.Resp.undocumented_is_error",
+            "Goag.RespHdr.read_write_header", "Goag.RespHdr.unset_iff_no_lines", "Goag.RespHdr.required_absent_is_error", "Goag.RespHdr.parseLeaves_fmtLeaves"]
 
 
 def check(ctx):
-    return respfam.check(ctx, "C10", ["GoagModel.Props.C10"], THEOREMS,
+    return respfam.check(ctx, "C10", ["GoagModel.Props.C10", "GoagModel.Props.C10b"], THEOREMS,
                          rule="specs = 3-5 operations over 7 path templates x {get,post,put,delete}: typed path / query (scalar and array) / header parameters, JSON or raw request bodies, response sets drawn from {200,201,204,400,404,default} with inline responses, shared component responses (used by several operations and statuses) and alias chains, 0-2 declared headers (required / optional, six types), JSON / raw / empty bodies; optional server base path; generated with --client; per operation: seeded round trips of every constructible response value (status, headers, JSON / raw body) and 11 injected status codes (documented and undocumented) through a stub transport; distinct by (package, response value) / (package, operation, arm)",
                          explanation="the response value a handler returns is dumped canonically and compared with the value Client.<Op> returns (same type, code, headers, body); injected status codes are compared with the Lean model clientArm (documented arm / default arm / not-implemented error)",
                          assumptions=["a default response carries a code that is not one of the operation's numbered statuses", "raw bodies compared as byte sequences after full read"],
